@@ -92,7 +92,9 @@ def mon_requests(tr, sc):
                     codes = fedsub.get(pid)
                     if codes is None:
                         out.append(("own-response:unsolicited", "Subscribe %s completed with `%s` although no SUBACK for its identifier %04x was sent" % (p[1], cls, pid)))
-                    elif len(codes) == len(fs):
+                    elif len(codes) != len(fs):
+                        out.append(("own-response:count-mismatch-accepted", "Subscribe %s with %d filters completed with `%s` on a SUBACK that carries %d return codes" % (p[1], len(fs), cls, len(codes))))
+                    else:
                         want = [fs[j] for j, c in enumerate(codes) if c == 0x80]
                         wcls = "ok" if not want else "suberr:" + ",".join(x.hex() if x else "-" for x in want)
                         if cls != wcls:
